@@ -357,35 +357,28 @@ _ATTRFN = {"np.shape": "shape", "np.size": "size", "np.ndim": "ndim"}
 _CONVERT = {"np.array", "np.asarray", "np.ascontiguousarray", "np.asanyarray", "np.require"}
 
 
-_CONSTS = {}
-
-
 def _consts(ctx, rel):
-    """module-level names bound once to a literal (sem.module_consts), per source model and file"""
-    k = (id(ctx.src), rel)
-    if k not in _CONSTS:
+    """module-level names bound once to a literal (sem.module_consts), per source model and file (remembered on the source model itself)"""
+    tab = ctx.src.__dict__.setdefault("_c18_consts", {})
+    if rel not in tab:
         try:
-            _CONSTS[k] = module_consts(ctx, rel)
+            tab[rel] = module_consts(ctx, rel)
         except Exception:  # noqa
-            _CONSTS[k] = {}
-    return _CONSTS[k]
-
-
-_PUBLIC = {}
+            tab[rel] = {}
+    return tab[rel]
 
 
 def _is_public(m, name):
     """is the module-level function part of the module's interface (`__all__` when the module has one; otherwise: no leading underscore
     and documented)?  Calls to interface functions stay opaque - they are what the rules name; everything else is a helper and is followed."""
-    k = id(m)
-    if k not in _PUBLIC:
+    if "_c18_public" not in m.__dict__:
         names = None
         for st in m.tree.body:
             if isinstance(st, ast.Assign) and any(isinstance(t, ast.Name) and t.id == "__all__" for t in st.targets) \
                     and isinstance(st.value, (ast.List, ast.Tuple)):
                 names = {e.value for e in st.value.elts if isinstance(e, ast.Constant) and isinstance(e.value, str)}
-        _PUBLIC[k] = names
-    names = _PUBLIC[k]
+        m.__dict__["_c18_public"] = names
+    names = m.__dict__["_c18_public"]
     if names is not None:
         return name in names
     f = m.funcs.get(name)
@@ -743,6 +736,12 @@ class PathEval(AutoEvaluator):
             base, ix = (pos[0], pos[1]) if meth != "take" or not on_value else (self._need(f.value), pos[0])
             if not isinstance(base, tuple):
                 return F.fn("idx", need(base), wrap(ix))
+        # np.compress(mask, a) / a.compress(mask) is a[mask] (1-D data, no axis)
+        if (d in ("np.compress", "numpy.compress", "np.extract", "numpy.extract") and plain2) or (on_value and meth == "compress" and plain1):
+            pos, _ = self._args(node)
+            base, ix = (pos[1], pos[0]) if not (on_value and meth == "compress") else (self._need(f.value), pos[0])
+            if not isinstance(base, tuple) and not isinstance(ix, tuple):
+                return F.fn("idx", need(base), need(ix))
         # arrays without elements
         if d in ZERO_CTORS or d in ONE_CTORS or d in ("np.full", "np.arange", "np.ndarray"):
             if node.args and not isinstance(node.args[0], ast.Starred):
